@@ -900,3 +900,12 @@ v("c05-prune-considers-undelivered-tasks", "C05", "PRUNE-UNDELIVERED", E + "incr
   "                if new_group_node.pending:\n                    non_empty_new_groups.append(new_group)\n",
   "                if new_group_node.pending or (\n                    new_group_node.tasks and new_group_node.child_groups\n                ):\n                    non_empty_new_groups.append(new_group)\n",
   expect="silent")
+
+# -- round 5: C17 ------------------------------------------------------------------------------------------
+v("c17-reserved-enum-names-lost-commas", "C17", "IMPLICIT-CONCAT", L + "parser.py",
+  "        if self._lexer.token.value in (\"true\", \"false\", \"null\"):\n", "        if self._lexer.token.value in (\n            \"true\"\n            \"false\"\n            \"null\"\n        ):\n")
+v("c17-nul-escape-rejected", "C17", "ESCAPE-RANGE", L + "lexer.py",
+  "        if 0 <= code <= 0xD7FF or 0xE000 <= code <= 0x10FFFF:\n", "        if 0 < code <= 0xD7FF or 0xE000 <= code <= 0x10FFFF:\n")
+v("c17-block-string-rejects-c0-controls", "C17", "BLOCK-CHARSET", L + "lexer.py",
+  "            if is_unicode_scalar_value(char):\n                position += 1\n            elif is_supplementary_code_point(body, position):\n                position += 2\n            else:\n                raise GraphQLSyntaxError(\n                    self.source,\n                    position,\n                    \"Invalid character within String:\"\n                    f\" {self.print_code_point_at(position)}.\",\n                )\n\n        raise GraphQLSyntaxError(self.source, position, \"Unterminated string.\")\n\n    def read_name",
+  "            if is_unicode_scalar_value(char) and (char >= \" \" or char == \"\\t\"):\n                position += 1\n            elif is_supplementary_code_point(body, position):\n                position += 2\n            else:\n                raise GraphQLSyntaxError(\n                    self.source,\n                    position,\n                    \"Invalid character within String:\"\n                    f\" {self.print_code_point_at(position)}.\",\n                )\n\n        raise GraphQLSyntaxError(self.source, position, \"Unterminated string.\")\n\n    def read_name")
